@@ -262,7 +262,14 @@ func (ex *Exec) modelled(st *State, ref string, fn *types.Func, recv *Val, args 
 	case "strings.Contains":
 		return one(b("(str.contains " + args[0].S + " " + args[1].S + ")"))
 	case "strings.Index":
-		return one(ex.intVal("(str.indexof "+args[0].S+" "+args[1].S+" 0)", r0()))
+		term := "(str.indexof " + args[0].S + " " + args[1].S + " 0)"
+		if ex.bound > 0 {
+			return one(ex.intVal(term, r0()))
+		}
+		name := ex.eng.smt.fresh("idx", "Int")
+		ex.eng.smt.syms[name].Def = term
+		ex.eng.smt.addAx(name, "(and (<= (- 1) "+name+") (<= "+name+" (str.len "+args[0].S+")))")
+		return one(ex.intVal(name, r0()))
 	case "strings.TrimPrefix":
 		s, p := args[0].S, args[1].S
 		return one(&Val{Sh: args[0].Sh, T: r0(), S: "(ite (str.prefixof " + p + " " + s + ") (str.substr " + s + " (str.len " + p + ") (- (str.len " + s + ") (str.len " + p + "))) " + s + ")"})
